@@ -185,6 +185,16 @@ pub fn check_generation<'b>(
                     );
                 }
             } else if d.promo == 0 && all.iter().any(|m| m.from == d.from && m.to == d.to && m.promo != 0) {
+                if judge_succ && !captures_only {
+                    // (C02: this successor is the position after no move at all)
+                    cx.violate(
+                        prop_succ,
+                        format!("{}/{}/successor/unpromoted-pawn-on-last-rank", prop_succ, tag),
+                        format!("{} produced a successor for {} in which the pawn stands on the last rank unpromoted (in {})", tag, d.uci(), p.fen()),
+                        ply,
+                        path,
+                    );
+                }
                 if judge_set {
                     cx.violate(
                         prop_set,
